@@ -58,7 +58,25 @@ func verifLoadCex() {
 	}
 }
 
+// random mode (selftest): values are drawn from a seeded generator instead of a
+// recorded counterexample
+var (
+	verifRandom     bool
+	verifRandState  uint64 = 88172645463325252
+	verifRandBounds        = map[string][2]int{}
+)
+
+func verifRand() uint64 {
+	verifRandState ^= verifRandState << 13
+	verifRandState ^= verifRandState >> 7
+	verifRandState ^= verifRandState << 17
+	return verifRandState
+}
+
 func verifNext(tag string) uint64 {
+	if verifRandom {
+		return verifRand()
+	}
 	verifLoadCex()
 	verifMu.Lock()
 	defer verifMu.Unlock()
@@ -75,12 +93,29 @@ func verifNext(tag string) uint64 {
 	return in.Value
 }
 
-func verifByte(tag string) byte  { return byte(verifNext(tag)) }
+func verifByte(tag string) byte {
+	if verifRandom {
+		// biased towards printable ASCII so that assumptions are often met
+		r := verifRand()
+		const alnum = "abcdefghijklmnopqrstuvwxyzABCDEFGHIJKLMNOPQRSTUVWXYZ0123456789-"
+		switch r % 10 {
+		case 0:
+			return byte(0x21 + (r>>8)%0x5e)
+		case 1:
+			return byte(r >> 8)
+		}
+		return alnum[(r>>8)%uint64(len(alnum))]
+	}
+	return byte(verifNext(tag))
+}
 func verifU16(tag string) uint16 { return uint16(verifNext(tag)) }
 func verifU32(tag string) uint32 { return uint32(verifNext(tag)) }
 func verifU64(tag string) uint64 { return verifNext(tag) }
 func verifBool(tag string) bool  { return verifNext(tag) != 0 }
 func verifInt(tag string, lo, hi int) int {
+	if verifRandom {
+		return lo + int(verifRand()%uint64(hi-lo+1))
+	}
 	v := int(int64(verifNext(tag)))
 	if v < lo || v > hi {
 		if verifPos > len(verifCex.Inputs) || os.Getenv("VERIF_CEX") == "" {
@@ -89,11 +124,20 @@ func verifInt(tag string, lo, hi int) int {
 	}
 	return v
 }
-func verifChoose(tag string, n int) int { return int(verifNext(tag)) }
+func verifChoose(tag string, n int) int {
+	if verifRandom {
+		return int(verifRand() % uint64(n))
+	}
+	return int(verifNext(tag))
+}
 func verifConc(x int) int               { return x }
 func verifBytes(tag string, n int) []byte {
 	b := make([]byte, n)
 	for i := range b {
+		if verifRandom {
+			b[i] = verifByte(tag)
+			continue
+		}
 		b[i] = byte(verifNext(fmt.Sprintf("%s_%d", tag, i)))
 	}
 	return b
